@@ -132,7 +132,16 @@ SigMulti == {SVec(Base("gz") \o <<SigM("origin", p1.key, p1.over, <<p2>>)>>, "or
                 p1 \in {Pk("k1", <<3, 2, 1>>), Pk("k1", <<1, 2>>), Pk("k2", <<1, 2, 3>>), Pk("k1", <<1, 2, 3>>), Pk("k1", <<>>)},
                 p2 \in {Pk("k1", <<>>), Pk("k1", <<1, 2, 3>>), Pk("k1", <<2, 3>>), Pk("k2", <<>>)},
                 ring \in {<<"k1">>, <<"k1", "k2">>}}
-C16Vecs == SigBasic \cup SigFlips \cup SigMore \cup SigMulti \cup SigDecoys \cup SigWrong
+\* the signed original kept as a member named "control" / "data" (no dot: the loader does not take it for the control or
+\* data member) while control.tar.gz / data.tar.gz hold something else; the signature covers the kept original
+Forged(c) == Ctl(c, <<CtlF("./control")>>, Fields(PkgDecoy, FALSE))
+SigBare == {SVec(<<Bin(V20), Forged("gz"), StdDat("gz"), Sig("origin", "k1", <<1, 5, 3>>), [StdCtl("gz") EXCEPT !.name = "control", !.extname = ""]>>,
+                 "origin", <<"k1">>, NoTamper, <<1, 5, 3>>),
+            SVec(<<Bin(V20), StdCtl("gz"), Dat("gz", <<DataFile(3)>>), Sig("origin", "k1", <<1, 2, 5>>), [StdDat("gz") EXCEPT !.name = "data", !.extname = ""]>>,
+                 "origin", <<"k1">>, NoTamper, <<1, 2, 5>>),
+            SVec(<<Bin(V20), Forged("gz"), StdDat("gz"), Sig("origin", "k1", <<1, 5, 3>>), [StdCtl("gz") EXCEPT !.name = "control.", !.extname = ""]>>,
+                 "origin", <<"k1">>, NoTamper, <<1, 5, 3>>)}
+C16Vecs == SigBasic \cup SigFlips \cup SigMore \cup SigMulti \cup SigDecoys \cup SigWrong \cup SigBare
 
 \* ---- several loaded packages alive in one process -----------------------------------------------------
 \* three signed packages with different names and payloads; handle h holds package PkgOfHandle[h].
@@ -164,7 +173,9 @@ DictLife == {[k |-> "deb_ops", pkgs |-> <<XzPkg, LifePkg(2)>>, ops |-> o] : o \i
 Unsigned(n) == <<Bin(V20), Ctl("gz", <<Dir, CtlF("./control")>>, Fields(PkgName(n), FALSE)), Dat("gz", <<DataFile(n)>>)>>
 WrongSig(n) == Unsigned(n) \o <<Sig("origin", "k1", <<1, 3, 2>>)>>
 Lf(h, p) == LOp("loadfile", h, p, <<>>)  Cc(h) == LOp("closer", h, 0, <<>>)  Rp(p) == LOp("replace", 0, p, <<>>)
+Ll(h, p) == LOp("loadlink", h, p, <<>>)
 PathLife == {[k |-> "deb_ops", pkgs |-> <<ev, LifePkg(2)>>, ops |-> o] : ev \in {Unsigned(1), WrongSig(1)}, o \in {
+                <<Ll(1, 2), Ck(1), Dt(1), Cc(1), Ll(2, 1), Dt(2), Cc(2)>>,
                 <<Lf(1, 1), Ck(1), Cc(1), Rp(2), Ck(1)>>,
                 <<Lf(1, 1), Cl(1), Rp(2), Ck(1), Cc(1)>>,
                 <<Lf(1, 1), Rp(2), Ck(1), Dt(1), Cc(1)>>,
